@@ -545,7 +545,7 @@ func check(id, tier string) int {
 			for _, l := range h.Reach {
 				want[l] = true
 			}
-			opts := exec.ExploreOpts{Entry: h.Entry, MaxPaths: b.MaxPaths, Alloc: b.Alloc, Seed: int64(seed),
+			opts := exec.ExploreOpts{Entry: h.Entry, MaxPaths: b.MaxPaths, Alloc: b.Alloc, Seed: int64(seed), TimeoutMS: b.TimeoutS * 1000,
 				Limits: exec.Limits{MaxSteps: b.MaxSteps, Preemptions: b.Preemptions, TimerFires: b.TimerFires, TimerHorizonNS: int64(b.HorizonMS) * 1e6, WantWitness: want, Params: b.Params}}
 			if v := os.Getenv("GOSYM_MAXRUNS"); v != "" {
 				opts.MaxPaths, _ = strconv.Atoi(v)
